@@ -21,17 +21,28 @@ Archives == {"msgpack", "json", "xml", "csv"}
 \* does the fault point k exist in a run that has n points of that kind?
 Hits(k, n) == k < n
 
-\* Text documents may end in insignificant white space: cutting only that leaves a complete document.
+\* Text documents may end in insignificant white space: cutting only that leaves a complete document.  The document is a
+\* sequence of code units of `unit` bytes (1, 2 or 4; big or little endian).
 Whitespace == {32, 9, 10, 13}
-RECURSIVE SigLen(_)
-SigLen(d) == IF d = <<>> THEN 0 ELSE IF d[Len(d)] \in Whitespace THEN SigLen(SubSeq(d, 1, Len(d) - 1)) ELSE Len(d)
+UnitIsWs(d, i, unit, be) ==
+  LET base == (i - 1) * unit
+      low  == IF be THEN base + unit ELSE base + 1
+  IN /\ d[low] \in Whitespace
+     /\ \A j \in (base + 1)..(base + unit) : j = low \/ d[j] = 0
+RECURSIVE SigUnitsFrom(_, _, _, _)
+SigUnitsFrom(d, n, unit, be) == IF n = 0 THEN 0 ELSE IF UnitIsWs(d, n, unit, be) THEN SigUnitsFrom(d, n - 1, unit, be) ELSE n
+SigUnits(d, unit, be) == SigUnitsFrom(d, Len(d) \div unit, unit, be)
 
 \* MessagePack is prefix-free; so are JSON and XML documents whose root is an object/array/element (every strict prefix that
-\* cuts a significant byte is malformed).  CSV is not: a prefix that ends at a row boundary is a shorter document.
+\* cuts a significant code unit is malformed).  CSV is not: a prefix that ends at a row boundary is a shorter document.
 PrefixFree(arch) == arch \in {"msgpack", "json", "xml"}
 
-\* number of input positions at which ending the data must be rejected
-MustRejectBelow(arch, doc) == IF arch = "msgpack" THEN Len(doc) ELSE IF PrefixFree(arch) THEN SigLen(doc) ELSE 0
+\* Number of input positions at which ending the data must be rejected: the cut removes at least one whole significant code
+\* unit.  (A cut inside the last significant code unit of a UTF-16/32 document leaves every character recognisable: unspecified.)
+MustRejectBelow(arch, doc, unit, be) ==
+  IF arch = "msgpack" THEN Len(doc)
+  ELSE IF PrefixFree(arch) THEN (IF SigUnits(doc, unit, be) = 0 THEN 0 ELSE (SigUnits(doc, unit, be) - 1) * unit + 1)
+  ELSE 0
 
 \* A: what the property allows for one run
 \*   n      = number of fault points of this kind in the fault-free run (allocations / input bytes / output bytes)
